@@ -2,12 +2,14 @@ package htsim
 
 import (
 	"crypto/md5"
+	stdtls "crypto/tls"
 	"encoding/binary"
 	"encoding/hex"
 	"encoding/json"
 	"fmt"
 	"strings"
 	"testing"
+	"time"
 )
 
 // C13 — the recorded JA3 fingerprint is the specification's JA3 of the ClientHello sent.
@@ -324,6 +326,23 @@ func genC13(seed uint64, idx int, tier string) *Scenario {
 		specs = append(specs, h)
 		sc.Actors = append(sc.Actors, a)
 	}
+	// complete handshakes: a library TLS client (Go's crypto/tls, TLS 1.2, seeded suites/curves/SNI) finishes the
+	// handshake and sends one request; what JA3 says about its hello is computed from the bytes it put on the wire
+	nfull := r.Range(1, 3)
+	for i := 0; i < nfull; i++ {
+		spec := c13Full{SNI: c13Names[r.Intn(len(c13Names))], Path: "/full" + r.word(1, 6)}
+		all := []uint16{0xc02f, 0xc030, 0xc013, 0xc014, 0x009c, 0x009d, 0x002f, 0x0035, 0xcca8}
+		for _, k := range r.distinctSorted(r.Range(1, len(all)), len(all)) {
+			spec.Suites = append(spec.Suites, all[k])
+		}
+		curves := []uint16{23, 24, 25, 29}
+		for _, k := range r.distinctSorted(r.Range(1, len(curves)), len(curves)) {
+			spec.Curves = append(spec.Curves, curves[k])
+		}
+		ej, _ := json.Marshal(spec)
+		sc.Actors = append(sc.Actors, Actor{Kind: "tlsclient", Name: fmt.Sprintf("f%d", i), Src: fmt.Sprintf("10.200.%d.%d:%d", i, 1+r.Intn(200), 41000+i), Dst: sensorIP + ":443",
+			Ops: []Op{{K: "tlsfull", Exp: ej}, {K: "sleep", Ms: 1000}}})
+	}
 	// a few connections at a time are interleaved; the tape picks among the first unfinished ones
 	sc.Schedule = make([]int, 6*n)
 	for i := range sc.Schedule {
@@ -334,9 +353,150 @@ func genC13(seed uint64, idx int, tier string) *Scenario {
 	return sc
 }
 
+// c13Full: a complete TLS session by a library client.
+type c13Full struct {
+	SNI    string   `json:"sni"`
+	Path   string   `json:"path"`
+	Suites []uint16 `json:"suites"`
+	Curves []uint16 `json:"curves"`
+}
+
+type c13FullOutcome struct {
+	Spec      c13Full
+	Src       string
+	Wire      []byte // everything the client wrote
+	Handshake string // "" = completed
+	Reply     []byte
+}
+
+// ja3FromWire computes the JA3 string and the SNI of the first ClientHello found in a client's byte stream,
+// reading the record layer and the hello's fields as RFC 5246 lays them out.
+func ja3FromWire(b []byte) (ja3, sni string, ok bool) {
+	var hs []byte
+	for len(b) >= 5 && b[0] == 22 {
+		n := int(b[3])<<8 | int(b[4])
+		if len(b) < 5+n {
+			return "", "", false
+		}
+		hs = append(hs, b[5:5+n]...)
+		b = b[5+n:]
+		if len(hs) >= 4 && len(hs) >= 4+(int(hs[1])<<16|int(hs[2])<<8|int(hs[3])) {
+			break
+		}
+	}
+	if len(hs) < 4 || hs[0] != 1 {
+		return "", "", false
+	}
+	d := hs[4 : 4+(int(hs[1])<<16|int(hs[2])<<8|int(hs[3]))]
+	take := func(n int) []byte {
+		if len(d) < n {
+			ok = false
+			d = nil
+			return make([]byte, n)
+		}
+		x := d[:n]
+		d = d[n:]
+		return x
+	}
+	ok = true
+	v := take(2)
+	vers := uint16(v[0])<<8 | uint16(v[1])
+	take(32)
+	take(int(take(1)[0]))
+	sl := take(2)
+	suites := take(int(sl[0])<<8 | int(sl[1]))
+	take(int(take(1)[0]))
+	var cs, ex, cv, pf []uint16
+	for i := 0; i+1 < len(suites); i += 2 {
+		if x := uint16(suites[i])<<8 | uint16(suites[i+1]); !isGrease(x) {
+			cs = append(cs, x)
+		}
+	}
+	if len(d) >= 2 {
+		el := take(2)
+		ext := take(int(el[0])<<8 | int(el[1]))
+		for len(ext) >= 4 {
+			typ := uint16(ext[0])<<8 | uint16(ext[1])
+			n := int(ext[2])<<8 | int(ext[3])
+			if len(ext) < 4+n {
+				return "", "", false
+			}
+			body := ext[4 : 4+n]
+			ext = ext[4+n:]
+			if isGrease(typ) {
+				continue
+			}
+			ex = append(ex, typ)
+			switch typ {
+			case 0:
+				if len(body) >= 5 {
+					sni = string(body[5:])
+				}
+			case 10:
+				for i := 2; i+1 < len(body); i += 2 {
+					if x := uint16(body[i])<<8 | uint16(body[i+1]); !isGrease(x) {
+						cv = append(cv, x)
+					}
+				}
+			case 11:
+				for i := 1; i < len(body); i++ {
+					pf = append(pf, uint16(body[i]))
+				}
+			}
+		}
+	}
+	return fmt.Sprintf("%d,%s,%s,%s,%s", vers, joinU16(cs), joinU16(ex), joinU16(cv), joinU16(pf)), sni, ok
+}
+
 func runC13(t *testing.T, sc *Scenario) Result {
 	res := okResult()
-	obs := RunScenario(t, sc, nil)
+	var fulls []*c13FullOutcome
+	obs := RunScenario(t, sc, func(w *World) {
+		w.Custom = func(w *World, ai int, op Op) {
+			if op.K != "tlsfull" {
+				return
+			}
+			out := &c13FullOutcome{Src: w.Sc.Actors[ai].Src, Handshake: "not finished"}
+			json.Unmarshal(op.Exp, &out.Spec)
+			fulls = append(fulls, out)
+			a := &w.Sc.Actors[ai]
+			go func() {
+				ep, err := w.Net.Connect(mustTCPAddr(a.Src), mustTCPAddr(a.Dst))
+				if err != nil {
+					out.Handshake = err.Error()
+					return
+				}
+				w.eps[ai] = ep
+				ep.Record = true
+				defer func() { out.Wire = append([]byte(nil), ep.Sent...); ep.Close() }()
+				ep.SetDeadline(time.Now().Add(2 * time.Minute))
+				cfg := &stdtls.Config{InsecureSkipVerify: true, ServerName: out.Spec.SNI, MinVersion: stdtls.VersionTLS12, MaxVersion: stdtls.VersionTLS12, CipherSuites: out.Spec.Suites}
+				for _, c := range out.Spec.Curves {
+					cfg.CurvePreferences = append(cfg.CurvePreferences, stdtls.CurveID(c))
+				}
+				tc := stdtls.Client(ep, cfg)
+				if err := tc.Handshake(); err != nil {
+					out.Handshake = err.Error()
+					return
+				}
+				out.Handshake = ""
+				host := out.Spec.SNI
+				if host == "" {
+					host = "192.0.2.1"
+				}
+				fmt.Fprintf(tc, "GET %s HTTP/1.1\r\nHost: %s\r\nConnection: close\r\n\r\n", out.Spec.Path, host)
+				buf := make([]byte, 4096)
+				for {
+					n, err := tc.Read(buf)
+					out.Reply = append(out.Reply, buf[:n]...)
+					if err != nil || len(out.Reply) > 1<<16 {
+						return
+					}
+				}
+			}()
+		}
+		w.runStandard()
+	})
 	res.Digest = traceDigest(obs, map[string]bool{"http.sessionid": true})
 	res.Steps, res.SimMs = obs.Steps, obs.SimMs
 	res.Nontriv = true
@@ -415,6 +575,37 @@ func runC13(t *testing.T, sc *Scenario) Result {
 				return res
 			}
 		}
+	}
+	// complete sessions: the digest and the name are on record with the request the client made
+	for _, f := range fulls {
+		ja3, sni, ok := ja3FromWire(f.Wire)
+		if !ok {
+			res.Violate("infra", "generator", fmt.Sprintf("cannot read the library client's own hello (%d bytes on the wire, handshake: %s)", len(f.Wire), f.Handshake))
+			return res
+		}
+		want := fmt.Sprintf("%x", md5.Sum([]byte(ja3)))
+		if f.Handshake != "" {
+			res.Violate("handshake-not-completed", "https-full", fmt.Sprintf("library client %s (sni %q, suites %v): %s", f.Src, f.Spec.SNI, f.Spec.Suites, f.Handshake))
+			continue
+		}
+		evs := bySrc[f.Src]
+		var reqs []map[string]interface{}
+		for _, e := range evs {
+			if got := fmt.Sprint(e["https.ja3-digest"]); got != want {
+				res.Violate("ja3-digest-wrong", "https-full", fmt.Sprintf("session of %s: recorded digest %q, the specification gives %s for JA3 string %q", f.Src, got, want, ja3))
+			}
+			if sn := fmt.Sprint(e["https.server-name"]); sn != sni {
+				res.Violate("server-name-wrong", "https-full", fmt.Sprintf("session of %s: recorded server name %q, SNI sent %q", f.Src, sn, sni))
+			}
+			if fmt.Sprint(e["http.url"]) == f.Spec.Path {
+				reqs = append(reqs, e)
+			}
+		}
+		if len(reqs) == 0 {
+			res.Violate("request-of-completed-session-not-recorded", "https-full", fmt.Sprintf("client %s completed the handshake (JA3 %s, sni %q) and sent GET %s; %d events carry a digest for the connection, none of them is the request; the client received %d bytes in reply", f.Src, want, sni, f.Spec.Path, len(evs), len(f.Reply)))
+			continue
+		}
+		res.probe("complete-sessions-verified", 1)
 	}
 	_ = binary.BigEndian
 	return res
